@@ -19,6 +19,11 @@ make_auto_flush_static_metric! {
 make_auto_flush_static_metric! {
     pub struct HS: LocalHistogram { "o" => { a, b } }
 }
+make_auto_flush_static_metric! {
+    pub struct FS: LocalCounter { "o" => { a, b } }
+}
+/// float counters are driven with amounts scaled by 2^-60 (far below f64::EPSILON; the sums stay exact)
+const FSCALE: f64 = 8.673617379884035e-19;
 
 lazy_static! {
     static ref CVEC: IntCounterVec = IntCounterVec::new(Opts::new("c", "h"), &["i", "o"]).unwrap();
@@ -26,6 +31,8 @@ lazy_static! {
     // interval given explicitly (100 ms) / left to the default (1000 ms)
     static ref CTLS: CS = auto_flush_from!(CVEC, CS, std::time::Duration::from_millis(100));
     static ref HTLS: HS = auto_flush_from!(HVEC, HS);
+    static ref FVEC: CounterVec = CounterVec::new(Opts::new("f", "h"), &["o"]).unwrap();
+    static ref FTLS: FS = auto_flush_from!(FVEC, FS, std::time::Duration::from_millis(100));
 }
 
 const BASE: u64 = 1 << 40;
@@ -52,6 +59,18 @@ fn worker(kind: String, rx: mpsc::Receiver<Cmd>, tx: mpsc::Sender<Value>) {
                     Cmd::Start => { leaf("a").get(); json!(null) }
                     Cmd::Upd(l, v) => { leaf(l).inc_by(*v); json!(null) }
                     Cmd::Get(l) => json!({"n": 0, "s": leaf(l).get()}),
+                    Cmd::Reset(l) => { leaf(l).reset(); json!(null) }
+                    Cmd::FlushLeaf(l) => { leaf(l).flush(); json!(null) }
+                    Cmd::FlushAll => { s.flush(); json!(null) }
+                    Cmd::Exit => json!(null),
+                }
+            } else if kind == "fcounter" {
+                let s: &FS = &FTLS;
+                let leaf = |l: &str| if l == "a" { &s.a } else { &s.b };
+                match &cmd {
+                    Cmd::Start => { leaf("a").get(); json!(null) }
+                    Cmd::Upd(l, v) => { leaf(l).inc_by(*v as f64 * FSCALE); json!(null) }
+                    Cmd::Get(l) => json!({"n": 0, "s": (leaf(l).get() / FSCALE) as u64}),
                     Cmd::Reset(l) => { leaf(l).reset(); json!(null) }
                     Cmd::FlushLeaf(l) => { leaf(l).flush(); json!(null) }
                     Cmd::FlushAll => { s.flush(); json!(null) }
@@ -84,13 +103,17 @@ fn worker(kind: String, rx: mpsc::Receiver<Cmd>, tx: mpsc::Sender<Value>) {
 
 fn shared(kind: &str) -> Value {
     let mut o = json!({"a": {"n": 0, "s": 0}, "b": {"n": 0, "s": 0}});
-    let fams = if kind == "counter" { CVEC.collect() } else { HVEC.collect() };
+    let fams = if kind == "counter" { CVEC.collect() } else if kind == "fcounter" { FVEC.collect() } else { HVEC.collect() };
     for mf in fams {
         for m in mf.get_metric() {
             let lab: HashMap<String, String> = m.get_label().iter().map(|l| (l.name().to_string(), l.value().to_string())).collect();
             let leaf = if kind == "counter" {
                 match (lab["o"].as_str(), lab["i"].as_str()) { ("a", "p") => "a", ("b", "q") => "b", _ => continue }
             } else { if lab["o"] == "a" { "a" } else { "b" } };
+            if kind == "fcounter" {
+                o[leaf] = json!({"n": 0, "s": (vh_pm::counter_value(m) / FSCALE) as u64});
+                continue;
+            }
             let j = vh_pm::metric_json(m, mf.get_field_type());
             o[leaf] = if kind == "counter" { json!({"n": 0, "s": j["counter"]["i"]}) } else { json!({"n": j["hist"]["count"], "s": j["hist"]["sum"]["i"]}) };
         }
@@ -105,7 +128,7 @@ struct W { tx: mpsc::Sender<Cmd>, rx: mpsc::Receiver<Value>, h: std::thread::Joi
 
 fn run_job(job: &Value, clock0: &mut u64) -> Value {
     let kind = job["kind"].as_str().unwrap().to_string();
-    if kind == "counter" { CVEC.reset() } else { HVEC.reset() }
+    if kind == "counter" { CVEC.reset() } else if kind == "fcounter" { FVEC.reset() } else { HVEC.reset() }
     let mut ws: HashMap<String, W> = HashMap::new();
     let mut out = vec![];
     // every job starts at a fresh virtual origin (the clock never goes back)
